@@ -48,8 +48,10 @@ func SimpleSourceFunction(env *Zlisp, name string, args []Sexp) (Sexp, error) {
 func (env *Zlisp) SourceExpressions(expressions []Sexp) error {
 	gen := NewGenerator(env)
 
+	macrosBefore := env.macrosSnapshot()
 	err := gen.GenerateBegin(expressions)
 	if err != nil {
+		env.macrosRestore(macrosBefore)
 		return err
 	}
 	//P("debug: in SourceExpressions, FROM expressions='%s'", (&SexpArray{Val: expressions, Env: env}).SexpString(0))
